@@ -385,6 +385,21 @@ class Prover:
             if n in ("std::iter::Iterator::count",) or n.endswith("as std::iter::Iterator>::count"):
                 l = self.iter_len(t[2][0], bb, d)
                 return (0, l[1])
+            if n in ("core::slice::<impl [T]>::len", "std::vec::Vec::<T, A>::len", "std::array::<impl [T; N]>::len"):
+                return self.len_range(t[2][0], bb, d)
+            if n == "std::option::Option::<T>::unwrap_or":
+                # position(..).unwrap_or(d): an index below the iterator's length, or d
+                src = util.strip(t[2][0])
+                if util.is_call(src) and (src[1] == "std::iter::Iterator::position" or src[1].endswith("as std::iter::Iterator>::position")):
+                    it = src[2][0]
+                    if util.strip(it)[0] == "mutref":
+                        it = self.se.call_old.get((src[3][:2], 0))
+                    if it is not None:
+                        l = self.iter_len(it, bb, d)
+                        dr = self._rng(t[2][1], bb, d)
+                        if l[1] != INF:
+                            return (min(0, dr[0]), max(l[1] - 1, dr[1]))
+                return self._by_type(t)
             if n in ("<T as std::convert::Into<U>>::into", "<usize as std::convert::From<u8>>::from") or n.endswith("as std::convert::From<u8>>::from") or n.startswith("std::convert::num::<impl std::convert::From<") or n.startswith("core::convert::num::<impl std::convert::From<"):
                 inner = self._rng(t[2][0], bb, d)
                 tr = self._by_type(t)
@@ -470,6 +485,11 @@ class Prover:
             return (0, 1)
         if op == "Shr":
             return (0, ra[1]) if ra[0] >= 0 else TOP
+        if op == "Shl":
+            # the result wraps at the type width: never above the unwrapped value
+            if ra[0] >= 0 and rb[0] >= 0 and ra[1] != INF and rb[1] != INF and rb[1] < 128:
+                return (0, int(ra[1]) << int(rb[1]))
+            return TOP
         return TOP
 
     def _phi(self, t, bb, d):
@@ -609,6 +629,12 @@ class Prover:
         if k == "agg" and x[1] == "array":
             return (len(x[4]), len(x[4]))
         if k == "after":
+            if util.is_call(x[1]) and x[1][1] == "std::vec::Vec::<T, A>::extend_from_slice" and x[2] == 0:
+                b0 = self.len_range(x[3], bb, d + 1)
+                b1 = self.len_range(x[1][2][1], bb, d + 1)
+                return (b0[0] + b1[0], b0[1] + b1[1])
+            if util.is_call(x[1]) and x[1][1].startswith("std::vec::Vec::<T, A>::") and x[2] == 0 and x[1][1].split("::")[-1] not in ("sort", "sort_unstable", "reverse", "fill", "swap", "copy_from_slice", "clone_from_slice"):
+                return (0, INF)  # a length-changing Vec method that is not modelled
             return self.len_range(x[3], bb, d + 1)
         if k == "upd":
             return self.len_range(x[1], bb, d + 1)
@@ -660,6 +686,13 @@ class Prover:
                     return r
             if n == "std::vec::from_elem":
                 return self.rng(a[1], bb)
+            # views that keep the byte length: from_utf8(x).unwrap(), s.as_bytes()
+            if n.split("::")[-1] in ("unwrap", "expect", "unwrap_unchecked") and util.is_call(strip(a[0])) and strip(a[0])[1].split("::")[-1] in ("from_utf8", "from_utf8_unchecked"):
+                return self.len_range(strip(a[0])[2][0], bb, d + 1)
+            if n in ("core::str::<impl str>::as_bytes", "std::string::String::as_bytes", "std::string::String::as_str"):
+                return self.len_range(a[0], bb, d + 1)
+            if n in ("std::vec::Vec::<T>::new", "std::vec::Vec::<T>::with_capacity"):
+                return (0, 0)
             if n.endswith("pin::pin_to_bytes"):
                 return (0, 10)
         return (0, INF)
@@ -738,6 +771,15 @@ class Prover:
             fs = self.fb.adt_fields(p) if p else None
             if fs and x[2] < len(fs):
                 return self.fb.ty(fs[x[2]]["ty"])
+            bt = self.type_of(x[1]) if p is None else None
+            if bt is not None:
+                bt = bt.peel_refs()
+                if bt.k == "adt":
+                    fs = self.fb.adt_fields(bt.path)
+                    if fs and x[2] < len(fs):
+                        return self.fb.ty(fs[x[2]]["ty"])
+                if bt.k == "tuple" and x[2] < len(bt.elems):
+                    return bt.elems[x[2]]
         if k in ("after",):
             return self.type_of(x[3])
         if k == "upd":
@@ -748,6 +790,9 @@ class Prover:
                 return place_ty(self.fb, b, b.blocks[x[3][1]]["term"]["dest"])
         if k == "phi" and x[3][0] == "local" and x[1] == self.se.fn:
             return self.body.local_ty(x[3][1])
+        if k == "phi" and x[3][0] == "deref" and x[3][1][0] == "param" and x[1] == self.se.fn:
+            t = self.body.local_ty(x[3][1][1])
+            return t.to if t is not None and t.k == "ref" else None
         if k == "deref":
             t = self.type_of(x[1])
             return t.to if t is not None and t.k == "ref" else None
